@@ -6,22 +6,32 @@ SPEC = dict(
     level="proof",
     design_ref="DESIGN.md §5 C17",
     technique="Lean 4 invariant proofs over line-by-line models of topo_sort / UnionFind / SubgraphMerge + differential correspondence with the real code",
-    level_text=("Theorems (all finite graphs, unbounded size): the line-by-line model of topo_sort (recursive DFS with temporary/"
-                "permanent marks, the map_err cycle reconstruction and the final drain; FnMut predecessor closure) terminates, "
-                "returns Ok exactly when the visited graph is acyclic, Ok(order) lists exactly the reachable nodes once with every "
-                "edge p->x having p strictly earlier, Err(cycle) is a genuine cycle (non-empty, nodes distinct, consecutive edges, "
-                "closes). UnionFind (insert-self-then-recurse find with full path compression, union keeping a's root): find "
+    level_text=("Theorems (all finite graphs / all histories, unbounded): the line-by-line model of topo_sort (recursive DFS with "
+                "temporary/permanent marks, the map_err cycle reconstruction and the final drain; FnMut predecessor closure) "
+                "terminates, returns Ok exactly when the visited graph is acyclic, Ok(order) lists exactly the reachable nodes once "
+                "with every edge p->x having p strictly earlier, Err(cycle) is a genuine cycle (non-empty, nodes distinct, consecutive "
+                "edges, closes). UnionFind (insert-self-then-recurse find with full path compression, union keeping a's root): find "
                 "terminates, returns the tree root, compression changes no root, and after ANY history of union/find/same_set "
-                "same_set(a,b) <-> a,b connected by the unioned pairs. SubgraphMerge (new, try_merge with window cycle check and "
-                "window re-sort, subgraphs) is modelled line by line and tied by correspondence; its invariant theorems are in progress "
-                "(partial). Tie: bounded-exhaustive digraphs (all <=3-node digraphs with loops, all loop-free 4-node digraphs; thorough: "
-                "all 4-node digraphs with loops, all loop-free 5-node digraphs), exhaustive small union histories, exhaustive small "
-                "DAG x merge orders, plus seeded random graphs / merge sequences / enemy sets, run through the real pub functions and "
-                "the compiled model, every answer diffed; property clauses evaluated on the real code by independent Rust oracles."),
+                "same_set(a,b) <-> a,b connected by the unioned pairs. SubgraphMerge (new; try_merge with enemy check, window cycle "
+                "check, union, predecessor/enemy remap, window re-sort via topo_sort with the path-compressing closure, rebuild of "
+                "toposort_node and sg_idx): invariant Inv = order is a permutation of the nodes and the concatenation of the groups, "
+                "each group is the contiguous range sg_idx..+sg_len headed by its representative and equals its union-find class, the "
+                "order is a topological order of the node graph (hence of the quotient graph), subgraph_preds/enemies describe the "
+                "quotient edges / enemy classes, no enemy pair in one group. Proved: new_establishes_Inv, tryMerge_preserves_Inv "
+                "(never panics/bug, a refused call changes nothing, a successful call joins exactly the two classes), all merge "
+                "sequences by induction, tryMerge_refuses_iff (false <-> enemy pair between the groups or a third group on a "
+                "quotient path between them), cycle-check loop termination. Tie: bounded-exhaustive digraphs (all <=3-node digraphs "
+                "with loops, all loop-free 4-node digraphs; thorough: all 4-node digraphs with loops, all loop-free 5-node digraphs), "
+                "exhaustive small union histories, every loop-free digraph on <=3 (thorough <=4) nodes x several all-pairs merge "
+                "orders x enemy sets, plus seeded random graphs / merge sequences / enemy sets, run through the real pub functions "
+                "and the compiled model, every answer (order, cycle, representative, bool + full subgraphs() listing) diffed; the "
+                "property clauses are evaluated on the real code by independent Rust oracles."),
     level_note=("Trusted: Lean kernel + propext/Classical.choice/Quot.sound; slotmap maps modelled as partial functions, "
                 "absent-key panics modelled as defaults (a real panic is a `panic` answer and shows up as a difference); HashSet "
-                "iteration order in the enemy remap is unobservable; debug_assert!s are exercised (harness builds with "
-                "debug-assertions) but not modelled except the one in subgraphs(); validate_topo_sort is modelled and diffed, no theorem."),
+                "iteration order in the enemy remap is unobservable; sort_unstable+dedup / BTreeSet modelled as sorted-set insertion; "
+                "debug_assert!s are exercised (harness builds with debug-assertions) but not modelled except the one in subgraphs(); "
+                "validate_topo_sort is modelled and diffed, no theorem; the link between the invariant's ghost group list and the "
+                "printed subgraphs() listing is by correspondence + oracle, not a theorem."),
     trusted_base=["slotmap SecondaryMap/SparseSecondaryMap modelled as partial functions; slotmap key Ord = insertion order of a fresh SlotMap",
                   "std HashMap/HashSet/BTreeSet/Vec modelled by abstract behaviour (HashSet iteration order is unobservable in try_merge)"],
     assumptions=["node ids are slotmap keys of one SlotMap without removals (stale-version keys not modelled)",
